@@ -301,6 +301,9 @@ def infos(ctx):
         for c in mod.cases({"tier": "quick", "seed": seed, "prop": m[:3]}):
             if c.info is None or "illegal" in (c.cls or "") or c.cls.startswith("D"):
                 continue
+            if c.suite == getattr(mod, "MODE_SUITE", None):
+                continue        # answered by a child interpreter: no family is built in THIS process, nothing to wrap
+
             by_suite.setdefault(c.suite, []).append(c)
         for s in sorted(by_suite):
             for c in pick(rng, by_suite[s], per_suite):
